@@ -118,6 +118,8 @@ type Opts struct {
 	AllowMissing   bool          `json:"allowMissing,omitempty"`
 	GenID          bool          `json:"genID,omitempty"`
 	IDCallback     bool          `json:"idCallback,omitempty"`
+	// IncludeCheck (List): only items satisfying Type.Check are listed (resource.WithInclude).
+	IncludeCheck bool `json:"includeCheck,omitempty"`
 	// PlainCheckErr (with ExpectCheck): the check fails with a plain Go error instead of a status error.
 	PlainCheckErr bool `json:"plainCheckErr,omitempty"`
 	// IDIntoField (with IDCallback): the id callback also writes the id into this string field of the message that
@@ -316,6 +318,9 @@ func (m *Model) applyGet(s State, op Op, got Result) Verdict {
 func (m *Model) applyList(s State, op Op, got Result) Verdict {
 	var want []proto.Message
 	for _, id := range s.IDs() {
+		if op.Opts.IncludeCheck && m.Type.Check != nil && !m.Type.Check(s[id].Msg) {
+			continue // the include predicate is asked about the stored item, before any read mask
+		}
 		want = append(want, m.project(s[id].Msg, op.Opts))
 	}
 	if !vk.SameList(want, got.List) {
